@@ -120,7 +120,27 @@ def queries_for(pts, grid):
     return qs, kinds
 
 
-def judge(cfg, ln, hist_rows, comp, qs, kinds, acc=None, prefit=False):
+_REM_CACHE = {}
+
+
+def reference_removed(ln, rows, d):
+    """The library's learning policy with arm 2 removed, fit (at implementor level, as the neighbourhood policy does)
+    on rows that still contain observations of arm 2."""
+    key = (ln, repr(rows))
+    if key not in _REM_CACHE:
+        if len(_REM_CACHE) > 100000:
+            _REM_CACHE.clear()
+        cfg = A.config(ln, "none", seed=0)
+        ref = ops.build(cfg)
+        ref.remove_arm(2)
+        cf = ops.is_context_free(cfg)
+        ref._imp.fit(np.asarray([r[0] for r in rows]), np.asarray([r[2] for r in rows], dtype=float),
+                     None if cf else np.asarray([r[1] for r in rows], dtype=float))
+        _REM_CACHE[key] = ops.expectations_dict(ops.norm(ref._imp.predict_expectations(np.asarray([[0.0] * d]))))
+    return _REM_CACHE[key]
+
+
+def judge(cfg, ln, hist_rows, comp, qs, kinds, acc=None, prefit=False, removed=False):
     history = []
     if prefit:
         # an earlier life of the same bandit: fit on other rows and answer a query, then the real history starts
@@ -132,6 +152,9 @@ def judge(cfg, ln, hist_rows, comp, qs, kinds, acc=None, prefit=False):
         rows = hist_rows[a:b]
         history.append(["fit" if i == 0 else "partial_fit", [r[0] for r in rows], [r[2] for r in rows],
                         [list(r[1]) for r in rows]])
+    if removed:
+        # arm 2 leaves the arm list; its stored observations keep colliding with the queries they collided with
+        history.append(["remove_arm", 2])
     with sched.model():
         mab = ops.build(cfg)
         for op in history:
@@ -143,7 +166,7 @@ def judge(cfg, ln, hist_rows, comp, qs, kinds, acc=None, prefit=False):
     pkey = tuple((k, planes[k].shape, planes[k].tobytes()) for k in sorted(planes))
     stored = [sign_pattern(planes, r[1], pkey) for r in hist_rows]
     case_base = report.h64(str(cfg) + str(history)) if acc is not None else 0
-    arms = cfg["arms"]
+    arms = [a for a in cfg["arms"] if not (removed and a == 2)]
     msgs = []
     base = {}
     for qi, (q, kind) in enumerate(zip(qs, kinds)):
@@ -165,7 +188,10 @@ def judge(cfg, ln, hist_rows, comp, qs, kinds, acc=None, prefit=False):
                 msgs.append("query %r collides with no stored row but expectations are %r" % (q, e))
                 break
             continue
-        want = reference_expectations(ln, [hist_rows[i] for i in nb], [0.0] * len(q), None)
+        if removed:
+            want = reference_removed(ln, [hist_rows[i] for i in nb], len(q))
+        else:
+            want = reference_expectations(ln, [hist_rows[i] for i in nb], [0.0] * len(q), None)
         if not all(ops.same(e[a], want[a]) for a in arms):
             msgs.append("query %r (%s): expectations %r; the policy trained on the colliding rows %r gives %r "
                         "(stored patterns %r, query pattern %r)" % (q, kind, e, nb, want, [s[0] for s in stored], pat))
@@ -238,13 +264,14 @@ def run_shard(shard):
                 cfg = {"arms": [1, 2], "lp": A.LPS[ln], "np": ["LSHNearest", {"n_dimensions": nd, "n_tables": nt}],
                        "seed": shard["bseed"], "n_jobs": n_jobs, "backend": None}
                 prefit = (ci + len(pts)) % 2 == 1 and asg == assignments(n, tier)[0]
-                msgs, history = judge(cfg, ln, hist_rows, comp, qs, kinds, acc, prefit)
+                removed = (ci + sum(map(abs, pts[-1]))) % 3 == 2
+                msgs, history = judge(cfg, ln, hist_rows, comp, qs, kinds, acc, prefit, removed)
                 acc.traces += 1
                 acc.state((nd, nt, shard["bseed"], ln, str(hist_rows), ci))
                 if msgs:
                     acc.violation("%s nd=%d nt=%d d=%d n=%d comp=%d jobs=%d" % (ln, nd, nt, d, n, len(comp), n_jobs),
                                   {"cfg": cfg, "ln": ln, "rows": hist_rows, "comp": comp, "queries": qs, "kinds": kinds,
-                                   "prefit": prefit},
+                                   "prefit": prefit, "removed": removed},
                                   msgs[0])
                 elif n >= 2 and ci == 1 and len(acc.samples) < 2:
                     acc.sample({"cfg": cfg, "history": history, "queries": qs[:6]})
@@ -253,5 +280,6 @@ def run_shard(shard):
 
 def replay(w):
     rows = [(r[0], r[1], r[2]) for r in w["rows"]]
-    msgs, _ = judge(w["cfg"], w["ln"], rows, [tuple(c) for c in w["comp"]], w["queries"], w["kinds"], prefit=w.get("prefit", False))
+    msgs, _ = judge(w["cfg"], w["ln"], rows, [tuple(c) for c in w["comp"]], w["queries"], w["kinds"], prefit=w.get("prefit", False),
+                    removed=w.get("removed", False))
     return msgs
